@@ -4,7 +4,10 @@
 (* REAL sessionTracker (harness/cmd/trackerconc): one record per distinct  *)
 (* outcome of a program, with the number of schedules that produced it.    *)
 (* C03 holds for a record iff its observation is the observation of some   *)
-(* sequential order of the program's calls (TrackerCore!SeqObsOf), the     *)
+(* sequential order of the program's calls (TrackerCore!SeqObsOf) THAT     *)
+(* RESPECTS THE REAL-TIME PRECEDENCE observed in that execution (r.hb: a   *)
+(* call that had left the tracker before another one was let in comes      *)
+(* first -- linearizability, not just sequential consistency), and the     *)
 (* execution neither deadlocked, hung nor panicked.                        *)
 (***************************************************************************)
 EXTENDS TrackerCore, Json
@@ -22,11 +25,23 @@ ObservedOf(r) ==
 
 StateOf(r) == [sess |-> ToSet(r.st.sess), wait |-> ToSet(r.st.wait)]
 
+\* thread t may take its next call only when every call recorded as preceding it has been taken
+HBOk(hb, ix, t) == \A h \in hb : (h[3] = t /\ h[4] = ix[t]) => ix[h[1]] > h[2]
+
+RECURSIVE LinOutcomes(_, _, _, _, _, _)
+LinOutcomes(prog, post, s0, o, ix, hb) ==
+    IF \A t \in 1..Len(prog) : ix[t] > Len(prog[t]) THEN SeqFold(s0, o, post)
+    ELSE LET ready == {t \in 1..Len(prog) : ix[t] <= Len(prog[t]) /\ HBOk(hb, ix, t)} IN
+         UNION { UNION { LinOutcomes(prog, post, r.st, o \o r.outs, [ix EXCEPT ![t] = @ + 1], hb)
+                         : r \in SeqApply(s0, prog[t][ix[t]]) } : t \in ready }
+
+LinResultsOf(prog, post, hb) == LinOutcomes(prog, post, InitSt, <<>>, [t \in 1..Len(prog) |-> 1], hb)
+
 Checks(r) ==
     IF r.deadlock THEN {"Deadlock"}
     ELSE IF r.hang THEN {"Hang"}
     ELSE IF r.panic # "" THEN {"Panic"}
-    ELSE LET res == SeqResultsOf(r.threads, r.post)
+    ELSE LET res == LinResultsOf(r.threads, r.post, ToSet(r.hb))
              obs == ObservedOf(r)
          IN (IF obs \in {x.obs : x \in res} THEN {} ELSE {"Linearizable"})
             \cup (IF obs.mw THEN {"MutualWait"} ELSE {})
